@@ -130,8 +130,10 @@ def _parse_atom_attributes(
         RAD: [int(i.split("=")[1]) for i in line if i.split("=")[0] == "RAD"],
     }
     for key, val in optional_attrs.items():
-        if val:
-            atom_attrs[key] = val.pop()
+        # An explicitly written default (CHG=0, RAD=0, MASS=0) means the same as
+        # omitting the keyword.
+        if val and (value := val.pop()) != 0:
+            atom_attrs[key] = value
 
     return atom_attrs, False
 
